@@ -68,8 +68,11 @@ def dec_prio(p, res):
     ups = [v for n, v in bumps if isinstance(n.op, ast.Add)]
     downs = [v for n, v in bumps if isinstance(n.op, ast.Sub)]
     spread = max(list(b.values()) + [u]) - min(b.values())
-    chk(len(ups) == 1 and len(downs) == 1 and ups == downs and isinstance(ups[0], int) and ups[0] > spread,
-        'parenthesis bump +%s/-%s > priority spread %d' % (ups, downs, spread), 'an operator inside parentheses must outrank every operator outside', parse)
+    if not ups and not downs:
+        res.undecided('parenthesis bump in %s' % parse.short, 'priority += K on ( and -= K on ) expected in this function')
+    else:
+        chk(len(ups) == 1 and len(downs) == 1 and ups == downs and isinstance(ups[0], int) and ups[0] > spread,
+            'parenthesis bump +%s/-%s > priority spread %d' % (ups, downs, spread), 'an operator inside parentheses must outrank every operator outside', parse)
     # the structure of the parser loop (bump on "(", un-bump on ")", operators created with the running priority) and of the
     # reduce loop of order_tokens (stack top re-read every iteration, reduce while new.priority <= pending.priority, the
     # reduced operator moves to the output, the new one is pushed afterwards) are compared with the reviewed decision tables
@@ -105,6 +108,12 @@ def dec_prio(p, res):
     # a prefix operator never reduces a pending operator
     guard = src_of(lp.test)
     skips_op1 = 'TokenType.Op1' in guard and ('!=' in guard or 'not' in guard)
+    if not skips_op1:
+        # the exclusion of prefix operators may be an enclosing test (`if t.type != TokenType.Op1: while ..`) or an earlier guard
+        from .. import shape
+        for fs, pol in shape.implied(lp, shape.parent_map(ot.node)):
+            if 'TokenType.Op1' in fs and (('!=' in fs or ' is not ' in fs) == pol):
+                skips_op1 = True
     levels = [0, ups[0]] if ups and isinstance(ups[0], int) else [0]
     viol = None
     if not skips_op1:
@@ -343,11 +352,14 @@ def dec_directhit(p, res):
     if sc_ok:
         res.ok(stm[0])
     else:
-        res.bad(F('DEC-DIRECTHIT', fb, lp, stm[0] if stm else '?', 'every candidate is scored with calculate_score(abbr, key, partial_match)'))
+        res.undecided('find_best_match: %s' % (stm[0] if stm else '?'), 'every candidate is scored with calculate_score(abbr, key, partial_match)')
+    returns_in_loop = [n for n in ast.walk(lp) if isinstance(n, ast.Return)]
     if hit_ok:
         res.ok('if score == 1: return item')
-    else:
+    elif not returns_in_loop and sc_ok:
         res.bad(F('DEC-DIRECTHIT', fb, lp, stm[1] if len(stm) > 1 else '?', 'a direct hit (score 1) must be returned immediately, before the running maximum can prefer another item'))
+    else:
+        res.undecided('find_best_match: %s' % (stm[1] if len(stm) > 1 else '?'), 'a direct hit (score 1) must be returned immediately')
     gp = p.func('stylesheet.get_scoring_part')
     if src_of(gp.node.body[-1]) == 'return item if isinstance(item, str) else item.key':
         res.ok('scoring part of a snippet is its key')
